@@ -727,6 +727,9 @@ def gen_scn(rng, *, sched="rr", restore=False, faults=False, conv=False, set_ops
             ops.append(("SCH", gen_stub_lineup(rng, rng.randint(1, 4), dims, bounds), "rr"))
     if not ops:
         ops = [("C", 2)]
+    if rng.random() < 0.3:
+        # a call that runs no batch at all (calibrate(0)): as the first call, between two calls, or as the last one
+        ops.insert(rng.randint(0, len(ops)), ("C", 0))
     scn.ops = ops
     if sched == "rl":
         scn.actions = [rng.randrange(n_s) for _ in range(60)]
